@@ -7,7 +7,7 @@ Three exhaustive layers, each on the real parser/serialiser:
      no-colon form, ALTREP, two parameters) x every string over a 14-symbol alphabet with |s| <= k, and typed lines over
      value menus (all value types, default and alternate VALUE, known / unknown / custom TZID), inside VEVENT (lenient),
      VTODO (strict) and an unknown component;
- (3) interaction: every ordered pair (thorough: triple) of a 40-line menu (repeated names, list accumulation, same name
+ (3) interaction: every ordered pair (thorough: triple) of a 48-line menu (repeated names, list accumulation, same name
      in different case, parameters on repeated properties) in each container.
 Oracle: (a) idempotence for every input from_ical accepts: T1=parse(x), s1=T1.to_ical(), T2=parse(s1): snapshot(T1) ==
 snapshot(T2), s1 == T2.to_ical(), parse(s1) does not raise; (b) exactness for every input the strict reference reader
@@ -55,6 +55,9 @@ MENU40 = (
     "DTSTART;VALUE=DATE:20240301", "FREEBUSY:20240301T083000Z/PT1H", "FREEBUSY;FBTYPE=FREE:20240302T083000Z/PT1H,20240303T083000Z/PT2H",
     "ATTACH:http://x/1", "ATTACH;FMTTYPE=text/plain:http://x/2", "X-ZERO;P=0:0", "GEO:1.5;2.5", "GEO:0.0;0.0",
     "DURATION:PT0S", "URL:", "RESOURCES:a,b", "RESOURCES:c",
+    # same name and same value text as an earlier line, different parameters
+    "COMMENT;LANGUAGE=de:one", "ATTENDEE;ROLE=CHAIR:mailto:a@x", "X-NOTE;P=2:third", "SUMMARY;X-P=1:s", "RDATE;X-P=1:20240301T083000",
+    "CATEGORIES;X-P=1:a,b", "RRULE;X-P=1:FREQ=DAILY", "GEO;X-P=1:1.5;2.5",
 )
 
 
@@ -72,7 +75,8 @@ def tree_text(t, counter=None):
     """Serialise a labelled tree (label, children) with one marker property per node."""
     counter = counter if counter is not None else [0]
     counter[0] += 1
-    out = [f"BEGIN:{t[0]}", f"X-N:{counter[0]}"]
+    # same name and same value text in every node, told apart only by a parameter (and once by the value)
+    out = [f"BEGIN:{t[0]}", f"X-N;I={counter[0]}:node", f"X-M:{counter[0]}"]
     for ch in t[1]:
         out += tree_text(ch, counter)
     out.append(f"END:{t[0]}")
